@@ -36,4 +36,19 @@ contract ConfigManager.ReloadFromRaw
   ensures[C16] @failed_reload_keeps_the_published_config (err != nil && c.currentConfig == old(c.currentConfig)) ==> c.currentConfig.ConfigHash == old(c.currentConfig.ConfigHash)
   modifies ConfigManager.currentConfig at {c}, ConfigInfo.* at {}, github.com/prometheus/prometheus/config.Config.* at {}, gLastHash, gHashed
   loop 1 invariant c.currentConfig == info && info.Config == gHashed && info.ConfigHash == sprint(gLastHash) && info.ExtraConfig == old(c.currentConfig.ExtraConfig)
+
+// C13 "or scraping administratively stopped": the stop reason the coordinator sends becomes the one the proxy reads
+// (Proxy.getCurCfg is wired to ConfigManager.ConfigInfo); the configuration and its hash are not touched by it
+contract ConfigManager.UpdateExtraConfig
+  requires c != nil && c.currentConfig != nil && c.currentConfig.ExtraConfig != nil
+  ensures[C13] @stop_reason_is_the_one_last_sent c.currentConfig.ExtraConfig != nil && c.currentConfig.ExtraConfig.StopScrapeReason == cfg.StopScrapeReason
+  ensures[C13,C16] @extra_config_does_not_touch_the_hash c.currentConfig == old(c.currentConfig) && c.currentConfig.ConfigHash == old(c.currentConfig.ConfigHash) && c.currentConfig.Config == old(c.currentConfig.Config)
+  modifies ConfigInfo.ExtraConfig at {c.currentConfig}, ExtraConfig.* at {}
+  loop 1 invariant c.currentConfig == old(c.currentConfig) && c.currentConfig.ExtraConfig != nil && c.currentConfig.ExtraConfig.StopScrapeReason == cfg.StopScrapeReason
+  loop 1 invariant c.currentConfig.ConfigHash == old(c.currentConfig.ConfigHash) && c.currentConfig.Config == old(c.currentConfig.Config)
+
+contract ConfigManager.ConfigInfo
+  requires c != nil
+  ensures result == c.currentConfig
+  modifies nothing
 @*/
